@@ -8,6 +8,10 @@
     performjoin.go  PerformJoin (acceptance path), checkEventsContainCreateEvent, isWellFormedJoinMemberEvent
   Core Lean only.
 
+  Round 4: `SendJoinIn` carries the event TYPE (`evType`) and HandleSendJoin's event checks start with the type check
+  (`event.Type() != spec.MRoomMember` → M_BAD_JSON) that the handler lacked; `InviteV3In` carries the proto event's type
+  and membership and HandleInviteV3 refuses a proto event that is not an invite before it builds and signs anything.
+
   Inputs are (a) the request parameters, (b) event-shape facts as the PDU accessors report them,
   (c) the answers of the caller-supplied oracles: signature verifier, queriers, template builder,
   federation client; `Allowed` is an oracle bit (C07).  Every guard is taken in the order of the Go
@@ -413,14 +417,24 @@ def handleInvite (i : InviteIn) : R InviteOut :=
 structure InviteV3In where
   common : InviteIn          -- the fields read by handleInviteCommonChecks (knownRoom, strippedGiven, stateQuery, curMembership)
   protoRoomID : Bytes
+  /-- input.InviteProtoEvent.Type -/
+  protoType : Bytes
+  /-- `json.Unmarshal(InviteProtoEvent.Content, &struct{ Membership string })`: `none` = it fails, else the membership
+      ("" when the key is absent) -/
+  protoMembership : Option Bytes
   /-- GetOrCreateSenderID: `none` = error, `some id` = the invited user's sender ID (the key the event is signed with) -/
   invitedSenderID : Option Bytes
   /-- EventBuilder.Build succeeded (size limits, field checks: C03 / C17's business) -/
   buildOK : Bool
 
+/-- The two checks after the room ID ("Check that the proto event really is an invite") are the round-4 repair: before
+    it HandleInviteV3 built ANY proto event — any type, any membership — into an event with the invited user's sender ID
+    as state key and signed it with that user's room key. -/
 def handleInviteV3 (i : InviteV3In) : R InviteOut :=
   if !i.common.versionKnown then .error eUnsupported
   else if i.protoRoomID != i.common.roomID then .error eBadJSON
+  else if i.protoType != b!"m.room.member" then .error eBadJSON
+  else if i.protoMembership != some b!"invite" then .error eBadJSON
   else match i.invitedSenderID with
     | none => .error .internal
     | some sid =>
